@@ -101,6 +101,9 @@ def django_bases(M):
         ("order-by", True, lambda: P.objects.order_by("-title", "id")),
         ("chained", True, lambda: P.objects.filter(score__gte=0).exclude(title="zz").order_by("-id")),
         ("prejoined-filter", False, lambda: P.objects.filter(blog__title__in=["b1", "b2", "b0"])),
+        # a Manager (not a QuerySet) that is not the default one, and a related manager: their own conditions must survive
+        ("narrowing-manager", False, lambda: P.high),
+        ("related-manager", False, lambda: (M.Blog.objects.order_by("id").first().posts if M.Blog.objects.exists() else P.high)),
         ("select-related", False, lambda: P.objects.select_related("blog")),
         ("annotate-filter", False, lambda: P.objects.annotate(ncom=Count("comments")).filter(ncom__gte=1)),
     ]
@@ -295,6 +298,77 @@ def _reg_unit(hists):
     return acc
 
 
+SWEEP_SCRIPT = r'''
+import sys, json
+mode = sys.argv[1]
+import sqlalchemy as sa
+from sqlalchemy import func, literal_column
+from sqlalchemy.sql import functions as F
+from sqlalchemy.dialects import sqlite, postgresql, mysql
+names = sorted(set(F._registry["_default"]) | {"concat", "coalesce", "lower", "upper", "length", "char_length", "substr", "substring", "strpos", "instr",
+               "round", "floor", "ceil", "ceiling", "trunc", "ltrim", "rtrim", "trim", "replace", "now", "current_timestamp", "date", "time", "year",
+               "extract", "cast", "abs", "mod", "max", "min", "sum", "count", "random", "nullif", "like", "contains", "startswith", "endswith", "indexof"})
+dialects = {"default": None, "sqlite": sqlite.dialect(), "postgresql": postgresql.dialect(), "mysql": mysql.dialect()}
+x, y = literal_column("x"), literal_column("y")
+def observe():
+    out = {}
+    for nm in names:
+        for shape, args in (("1", (x,)), ("2", (x, y)), ("0", ())):
+            try:
+                e = getattr(func, nm)(*args)
+            except Exception as ex:
+                out["%s/%s" % (nm, shape)] = ["EXC", type(ex).__name__]
+                continue
+            for dn, d in dialects.items():
+                try:
+                    txt = str(e.compile(dialect=d)) if d is not None else str(e)
+                    txt = __import__("re").sub(r" at 0x[0-9a-f]+", "", txt)      # object addresses differ between processes
+                    out["%s/%s/%s" % (nm, shape, dn)] = [txt, type(e.type).__name__, type(e).__name__]
+                except Exception as ex:
+                    out["%s/%s/%s" % (nm, shape, dn)] = ["EXC", type(ex).__name__]
+    return out
+res = {}
+if mode == "never":
+    res["use"] = observe()
+elif mode == "import-first":
+    import odata_query.sqlalchemy  # noqa
+    res["use"] = observe()
+else:
+    res["before"] = observe()
+    import odata_query.sqlalchemy  # noqa
+    res["use"] = observe()
+print(json.dumps(res))
+'''
+
+
+def run_sweep(mode):
+    env = dict(os.environ, PYTHONPATH=os.environ.get("VERIF_REPO", "/repo"))
+    out = subprocess.run([sys.executable, "-c", SWEEP_SCRIPT, mode], env=env, capture_output=True, text=True, timeout=600)
+    if out.returncode != 0:
+        raise RuntimeError("registry sweep subprocess failed: %s" % out.stderr[-300:])
+    return json.loads(out.stdout.strip().splitlines()[-1])
+
+
+def registry_sweep(ctx):
+    """every function name SQLAlchemy registers (plus common ones) x 0/1/2 arguments x 4 dialects: what the host's func.<name>(...) compiles
+    to in a process that never imports the backend, in one that imports it first, and before / after the import in one process"""
+    base = run_sweep("never")["use"]
+    n = 0
+    for mode in ("import-first", "use-import-use"):
+        res = run_sweep(mode)
+        for phase, obs in res.items():
+            for key, want in base.items():
+                n += 1
+                ctx.count("executions")
+                if obs.get(key) != want:
+                    ctx.violation("registry-sweep:%s" % key.split("/")[0], {"layer": "registry-sweep", "mode": mode, "phase": phase, "key": key, "expected": want, "observed": obs.get(key)})
+                    break
+            else:
+                ctx.outcome(("sweep-ok", mode, phase))
+    ctx.count("states", len(base))
+    return len(base)
+
+
 def registry_layer(ctx):
     core = ["import", "use:lower", "use:round", "use:strpos"]
     hists = []
@@ -328,13 +402,20 @@ def run(ctx):
     units = [["product"]] + [chosen[i::40] for i in range(40) if chosen[i::40]]
     ctx.pmap(_unit, units)
     ctx.layer("queries", instances=len(chosen) + 1, of=len(inst) + 1, filters=len(FILTERS), exhaustive=not ctx.quick,
-              bases={"sa-select": 13, "sa-query": 13, "sa-core": 3, "django": 10})
+              bases={"sa-select": 13, "sa-query": 13, "sa-core": 3, "django": 12})
     n = registry_layer(ctx)
     ctx.layer("registry", histories=n, names=EXT_NAMES, exhaustive=not ctx.quick)
+    ns = registry_sweep(ctx)
+    ctx.layer("registry-sweep", observations=ns, exhaustive=True,
+              note="every registered SQLAlchemy function name x 0/1/2 arguments x {default, sqlite, postgresql, mysql}: never imported / imported first / used-imported-used")
 
 
 def replay(ctx, case):
     django_h.setup()
+    if case.get("layer") == "registry-sweep":
+        base = run_sweep("never")["use"].get(case["key"])
+        res = run_sweep(case["mode"])[case["phase"]].get(case["key"])
+        return {"key": case["key"], "expected": base, "observed": res, "ok": base == res}
     if case.get("layer") == "registry":
         obs = run_history(case["history"])
         base = run_history([case["op"]])[0]
